@@ -57,7 +57,8 @@ func TryAbsToRel(abs string) string {
 }
 
 // IsExtOnly checks whether path points to a file with no name but with
-// an extension, i.e. ".yaml"
+// an extension, i.e. ".yaml". The directory "." is not an extension.
 func IsExtOnly(path string) bool {
-	return filepath.Base(path) == filepath.Ext(path)
+	base := filepath.Base(path)
+	return base != "." && base == filepath.Ext(path)
 }
